@@ -55,8 +55,13 @@ Uuid(m) == Bool(~LIsZero(m.u) /\ ~LAllOnes(m.u))       \* 8 limbs
 MMap(m) == IF LIsZero(m.len) THEN No
            ELSE Both(Bool(OnlyBits(m.flags, {0})), Both(RangeOK(m.fdoff, m.len), RangeOK(m.shmoff, m.len)))
 
+\* bodies the protocol puts no rule on: every bit pattern is a valid encoding (a validator that starts refusing some of them
+\* -- say, ring indexes above 16 bits in a GET_VRING_BASE reply -- makes conformant messages undeliverable)
+FreeTypes == {"u64", "vring_state", "gpu_edid_req", "gpu_cursor_pos", "gpu_scanout", "gpu_update"}
+
 Verdict(t, m) ==
-    CASE t = "hdr_fe" -> HdrFe(m) [] t = "hdr_be" -> HdrBe(m) [] t = "hdr_gpu" -> HdrGpu(m)
+    CASE t \in FreeTypes -> Yes
+      [] t = "hdr_fe" -> HdrFe(m) [] t = "hdr_be" -> HdrBe(m) [] t = "hdr_gpu" -> HdrGpu(m)
       [] t = "memory" -> Memory(m) [] t \in {"region", "single_region"} -> Region(m)
       [] t = "vring_addr" -> VringAddr(m) [] t = "config" -> Config(m) [] t = "inflight" -> Inflight(m)
       [] t = "log" -> Log(m) [] t = "dev_state" -> DevState(m) [] t = "uuid" -> Uuid(m) [] t = "mmap" -> MMap(m)
